@@ -31,6 +31,19 @@ class C07(CacheProp):
                    ["get", h1, 10], ["get", h2, 20], ["iter"]]
             cases.append(cachegen.Case("rw%d" % j, "cache", g.header(1000, 8, True, True, 0, bdur), ops,
                                        tags=["profile:sweeprw"]))
+        # IterValues from inside the sweep (the first OnEvict enumerates the cache): several keys share one bucket, some
+        # with a longer TTL or none; whatever is enumerated at that moment must not be expired
+        for j in range(max(2, n // 40)):
+            bdur = rng.choice([1, 5])
+            hs = [cachegen.mix(900 + 7 * j + i) for i in range(5)]
+            ops = []
+            for i, h in enumerate(hs):
+                ttl = [10 ** 9, 10 ** 9, 10 ** 9, 0, 3600 * 10 ** 9][i] if rng.random() < 0.7 else 10 ** 9
+                ops.append(["set", h, 10 + i, 11 + i, 30, ttl])
+            ops += [["tok"]] * 6 + [["dump"], ["tick", rng.choice([2, 6, 11]) * bdur * 10 ** 9], ["iter"], ["sweepit"], ["iter"],
+                                   ["dump"], ["tick", 3 * bdur * 10 ** 9], ["sweepit"], ["iter"]]
+            cases.append(cachegen.Case("si%d" % j, "cache", g.header(1000, 8, True, True, 0, bdur), ops,
+                                       tags=["profile:sweepit"]))
         # the applier's store.Set on a key that is already in the map: two buffered inserts of one key with different TTLs
         # and, between them, a Del of a colliding key (same hash, other conflict), which makes the accounting forget the
         # hash while the map keeps the entry - the second insert is then admitted and overwrites the entry in place
@@ -96,6 +109,14 @@ class C07(CacheProp):
                 if v in tr.val_ttl and tr.val_ttl[v] > 0 and now > tr.val_set_time[v] + tr.val_ttl[v]:
                     fails.append("op %d: Get returned value %d at t=%d, %d ns after its expiration" % (
                         st["n"], v, now, now - tr.val_set_time[v] - tr.val_ttl[v]))
+            if op[0] == "sweepit":
+                for t in st["raw"].split():
+                    if t.startswith("rwset:"):
+                        for x in t.split(":")[2].split("+"):
+                            if x != "-" and int(x) in tr.val_ttl and tr.val_ttl[int(x)] > 0 and \
+                                    now > tr.val_set_time[int(x)] + tr.val_ttl[int(x)]:
+                                fails.append("op %d: IterValues, called from the sweep's first OnEvict, yielded expired value %s "
+                                             "(%d ns after its expiration)" % (st["n"], x, now - tr.val_set_time[int(x)] - tr.val_ttl[int(x)]))
             if op[0] == "iter":
                 for x in res:
                     if x == "-":
